@@ -397,6 +397,114 @@ def gen_flow_multi(seed, lang, form="from", repo="/repo"):
 
 
 # ---------------------------------------------------------------------------------------------------
+# projects with a BYSTANDER file that imports a module under another name (`import liba as L`, `from liba import other
+# as oth`, dotted `import pkg.mod`): the move-to-file edit targets that EXISTING module, so that after the edit the main
+# file imports it plainly while another unit knows it under an alias
+
+ALIAS_FORMS = ("as", "from-as", "dotted")
+
+
+def gen_alias(seed, form, side):
+    """side 'before': the aliasing file is named zz_report.py (analysed before prog.py), 'after': aa_report.py."""
+    from . import edits
+    g, move_fn, fallback = None, None, None
+    for attempt in range(25):
+        cand = gen_flow(seed * 17 + 3 + attempt * 1009, "python")
+        text = cand["files"][cand["main"]]
+        body = text[text.index("def main("):]
+        # usable if a self-contained function can be moved out of the main file; preferred if main() itself calls it
+        # (then the base call graph certainly has an edge into it)
+        for fn in cand["renamable"]["rename-function"]:
+            if not fn.startswith("fn"):
+                continue
+            st = edits.py_move_to_file(dict(cand["files"]), random.Random(attempt), cand["main"], protected=PROTECTED, helper="probe_mod_q", only=fn)
+            if st is None:
+                continue
+            if re.search(r"(?<![A-Za-z0-9_])" + re.escape(fn) + r"\(", body):
+                g, move_fn = cand, fn
+                break
+            if fallback is None and re.search(r"(?<![A-Za-z0-9_])" + re.escape(fn) + r"\(", st.files[cand["main"]]):
+                fallback = (cand, fn)
+        if g is not None:
+            break
+    if g is None:
+        g, move_fn = fallback if fallback else (cand, None)
+    rng = random.Random(seed * 53 + len(form))
+    files = dict(g["files"])
+    other = f"other_k{rng.randrange(10, 99)}"
+    lib = f"def {other}(zq):\n    wq = zq + {rng.choice([1, 2, 3])}\n    return wq\n"
+    by = ("zz_report" if side == "before" else "aa_report") + ".py"
+    if form == "dotted":
+        mod_rel, mod = "pkg/mod.py", "pkg.mod"
+        files["pkg/__init__.py"] = ""
+        files[by] = f"import pkg.mod\n\ndef report(rq):\n    return pkg.mod.{other}(rq)\n"
+    else:
+        mod_rel, mod = "liba.py", "liba"
+        if form == "as":
+            files[by] = f"import liba as LQ\n\ndef report(rq):\n    return LQ.{other}(rq)\n"
+        else:
+            files[by] = f"from liba import {other} as oth_q\n\ndef report(rq):\n    return oth_q(rq)\n"
+    files[mod_rel] = lib
+    return {"name": f"alias_{form}_{side}_{seed}", "lang": "python", "files": files, "main": g["main"], "origin": "gen_alias",
+            "runnable": True, "features": sorted(set(g["features"]) | {"multi-file", "alias-" + form, "aliaser-" + side}),
+            "renamable": g["renamable"], "def_groups": g["def_groups"], "entry": "main", "argvecs": g["argvecs"],
+            "existing_modules": [mod_rel], "alias_move_fn": move_fn}
+
+
+# ---------------------------------------------------------------------------------------------------
+# classes nested two levels: a method of the INNER class uses bare names that are declared at module level AND as
+# members of the outer class (and, as a control, of the inner class itself). In Python/JavaScript/TypeScript a bare
+# name in a method never refers to a class member, so all of them are the module-level functions.
+
+def gen_nested(seed, lang):
+    rng = random.Random(seed * 71 + len(lang))
+    hp = rng.choice(["helper", "fetch", "lookup", "relay"])      # collides with a member of the OUTER class
+    pr = rng.choice(["probe", "scale", "adjust"])                # collides with a member of the INNER class (control)
+    k1, k2, k3 = rng.choice([1, 2, 3]), rng.choice([2, 3]), rng.choice([0, 5, 7])
+    attr = rng.random() < 0.4                                    # the outer member is an attribute instead of a method
+    closure = rng.random() < 0.5
+    if lang == "python":
+        L = [f"def {hp}(p1):", f"    v1 = p1 + {k1}", "    return v1", "",
+             f"def {pr}(p2):", f"    return p2 * {k2}", "",
+             "class Outer:"]
+        L += ([f"    {hp} = {k3}"] if attr else [f"    def {hp}(self, q1):", f"        return {k3}"])
+        L += ["    class Inner:", f"        def {pr}(self, q2):", "            return 1",
+              "        def handle(self, req):"]
+        if closure:
+            L += ["            def inner_fn(q3):", f"                return {hp}(q3)", "            y1 = inner_fn(req)"]
+        else:
+            L += [f"            y1 = {hp}(req)"]
+        L += ["            sink(y1)", f"            return {pr}(y1)", "",
+              "def main(tainted, b, c):", "    o1 = Outer.Inner()", "    r1 = o1.handle(tainted)", "    out(r1)", "    return r1", "",
+              "out(main(1, 2, 3))"]
+        rel = "prog.py"
+    else:
+        ts = lang == "typescript"
+        n_ = ": number" if ts else ""
+        any_ = ": any" if ts else ""
+        L = [f"function {hp}(p1{n_}){n_} {{", f"    var v1 = p1 + {k1};", "    return v1;", "}", "",
+             f"function {pr}(p2{n_}){n_} {{", f"    return p2 * {k2};", "}", "",
+             "class Outer {"]
+        L += ([f"    static {hp}{n_} = {k3};"] if attr else [f"    {hp}(q1{n_}){n_} {{", f"        return {k3};", "    }"])
+        L += ["    static Inner = class Inner {", f"        {pr}(q2{n_}){n_} {{", "            return 1;", "        }",
+              f"        handle(req{n_}){n_} {{"]
+        if closure:
+            L += [f"            function inner_fn(q3{n_}){n_} {{", f"                return {hp}(q3);", "            }", "            var y1 = inner_fn(req);"]
+        else:
+            L += [f"            var y1 = {hp}(req);"]
+        L += ["            sink(y1);", f"            return {pr}(y1);", "        }", "    };", "}", "",
+              f"function main(tainted{n_}, b{n_}, c{n_}){n_} {{", f"    var o1{any_} = new Outer.Inner();", "    var r1 = o1.handle(tainted);",
+              "    out(r1);", "    return r1;", "}", "", "out(main(1, 2, 3));"]
+        rel = "prog.ts" if ts else "prog.js"
+    return {"name": f"nested_{lang[:2]}{seed}", "lang": lang, "files": {rel: "\n".join(L) + "\n"}, "main": rel, "origin": "gen_nested",
+            "runnable": lang in ("python", "javascript"), "features": ["nested-classes", "outer-member-" + ("attribute" if attr else "method")]
+            + (["closure"] if closure else []), "renamable": {"rename-local": ["v1", "y1", "o1", "r1"], "rename-param": ["p1", "p2", "q2"],
+                                                               "rename-function": [], "rename-class": [], "rename-method": []},
+            "def_groups": [], "entry": "main", "argvecs": [(1, 2, 3), (0, 0, 0)],
+            "collide_outer": hp, "collide_inner": pr, "outer_member_is_method": not attr}
+
+
+# ---------------------------------------------------------------------------------------------------
 # hand-written templates: segments; a ("defs", [...]) segment is a group of independent, reorderable definitions
 
 def _tpl(name, lang, rel, segments, renamable, runnable=False, hierarchy=(), features=(), java_driver=None):
@@ -625,17 +733,21 @@ def run_py_project(files, main_rel, entry="main", argvecs=((1, 2, 3),), budget=2
         records.append(("sink",) + tuple(repr(x) for x in a))
 
     mods = {}
+    pkgs = set()
     for rel, text in files.items():
         if rel == main_rel or not rel.endswith(".py"):
             continue
         nm = rel[:-3].replace("/", ".")
+        if nm.endswith(".__init__"):
+            nm = nm[:-9]
+            pkgs.add(nm)
         mods[nm] = (rel, text)
     prefix = "<c12:"
 
     class Finder(importlib.abc.MetaPathFinder, importlib.abc.Loader):
         def find_spec(self, fullname, path, target=None):
             if fullname in mods:
-                return importlib.util.spec_from_loader(fullname, self)
+                return importlib.util.spec_from_loader(fullname, self, is_package=fullname in pkgs)
             return None
 
         def create_module(self, spec):
